@@ -108,6 +108,22 @@ def switch_meaning(b, s, value):
     return value
 
 
+def switch_edges(b, pred, blocks=None):
+    """[(switch bb, target bb, meaning, scrutinee expr)] over all switch terminators (optionally only in `blocks`)
+    whose scrutinee expression satisfies pred."""
+    out = []
+    for bb in (blocks if blocks is not None else b.reachable):
+        t = b.term(bb)
+        if t["t"] != "switch":
+            continue
+        e = switch_expr(b, bb)
+        if not pred(e):
+            continue
+        for v, tb in list(t["targets"]) + [(None, t["otherwise"])]:
+            out.append((bb, tb, switch_meaning(b, bb, v), e))
+    return out
+
+
 def arith(e):
     """Normalise an addition / subtraction written as an operator or as a saturating_/checked_/wrapping_
     method call: returns (op, lhs, rhs) with op in {'Add', 'Sub', 'Mul'} or None.  `checked_*` results are
@@ -127,3 +143,59 @@ def arith(e):
                                        "std::option::Option::unwrap_or", "std::option::Option::unwrap_or_default") and e[2]:
             return arith(e[2][0])
     return None
+
+
+def select_info(b):
+    """tokio::select! expansions of a body: [{'poll_bb','ready_bb','switch','arms': {k: {'fut': callee of the
+    branch future, 'expr': its expression, 'target': first block of the arm's handler}}}].  The macro builds a tuple
+    of the branch futures (position k), polls them from one poll_fn closure and yields an output enum with variant
+    `_k` for branch k (and `Disabled`)."""
+    out = []
+    for a in b.awaits():
+        if "PollFn" not in (a.get("fut_ty") or "") or a.get("ready_bb") is None:
+            continue
+        futs = None
+        for bb, i, s in b.assigns():
+            rv = s["rv"]
+            if rv["r"] == "agg" and rv.get("kind") == "closure" and b.dominates(bb, a["poll_bb"]):
+                for o in rv["ops"]:
+                    e = b.expr(o)
+                    if e[0] == "agg" and e[1] == "tuple" and e[3] and all(isinstance(x, tuple) and len(x) == 2 for x in e[3]):
+                        cand = {}
+                        for idx, fe in e[3]:
+                            inner = fe
+                            while inner[0] == "call" and inner[1] == "std::future::IntoFuture::into_future" and inner[2]:
+                                inner = inner[2][0]
+                            cand[str(idx)] = inner
+                        # nearest closure before the poll wins
+                        if futs is None or bb >= futs[0]:
+                            futs = (bb, cand)
+        if futs is None:
+            continue
+        sw = None
+        for bb in sorted(b.reach([a["ready_bb"]], avoid=[a["poll_bb"]])):
+            for s in b.stmts(bb):
+                rv = s.get("rv") or {}
+                if rv.get("r") == "discr" and "Disabled" in [v[1] for v in rv.get("variants", [])]:
+                    sw = bb
+                    break
+            if sw is not None:
+                break
+        if sw is None:
+            continue
+        t = b.term(sw)
+        if t["t"] != "switch":
+            continue
+        arms = {}
+        variants = None
+        for s in b.stmts(sw):
+            rv = s.get("rv") or {}
+            if rv.get("r") == "discr":
+                variants = {str(v[0]): v[1] for v in rv["variants"]}
+        for val, tgt in t["targets"]:
+            name = (variants or {}).get(str(val))
+            if name and name.startswith("_") and name[1:] in futs[1]:
+                fe = futs[1][name[1:]]
+                arms[name[1:]] = {"fut": fe[1] if fe[0] == "call" else None, "expr": fe, "target": int(str(tgt).replace("bb", ""))}
+        out.append({"poll_bb": a["poll_bb"], "ready_bb": a["ready_bb"], "switch": sw, "arms": arms, "line": a["line"]})
+    return out
